@@ -57,9 +57,13 @@ NumOps   == { "=", "!=", ">", ">=", "<", "<=" }
 StrAtoms == { ABin(op, l, r) : op \in StrOps, l \in StrLefts, r \in StrLits }
             \cup { ABin(op, r, l) : op \in StrOps, l \in {AKey, AVal}, r \in StrLits }
             \cup { ABin("~=", l, r) : l \in {AKey, AVal, Call1("lower", AVal)}, r \in ReLits }
+            \* row-dependent right operands (patterns, prefixes, bounds and list items taken from the pair itself)
+            \cup { x \in { ABin(op, l, r) : op \in StrOps \cup {"~="}, l \in {AKey, AVal}, r \in {AKey, AVal, Call1("lower", AVal), ABin("+", AVal, AStr(a))} } : x.a[1] # x.a[2] }
+            \cup { AIn(AKey, <<AVal, AStr(a)>>), AIn(AVal, <<AStr(<<120>>), AKey, Call1("lower", AKey)>>), ABetween(AKey, AStr(<<>>), AVal), ABetween(AVal, AKey, AStr(<<122>>)) }
             \cup { AIn(AKey, <<AStr(a), AStr(ab), AStr(a)>>), AIn(AVal, <<AStr(ab), AStr(<<>>)>>), AIn(Call1("upper", AKey), <<AStr(<<65, 66>>)>>),
                    ABetween(AKey, AStr(a), AStr(bb)), ABetween(AVal, AStr(<<65>>), AStr(<<97, 98>>)) }
 NumAtoms(L) == { ABin(op, l, r) : op \in NumOps, l \in L, r \in NumLits }
+               \cup { x \in { ABin(op, l, r) : op \in NumOps, l \in L, r \in {Call1("strlen", AKey), ABin("*", Call1("strlen", AKey), AInt(2))} } : x.a[1] # x.a[2] }
                \cup { ABin(op, r, l) : op \in NumOps, l \in L, r \in {AInt(2), AFlt(3, 1)} }
                \cup { AIn(l, <<AInt(1), AInt(2)>>) : l \in L } \cup { ABetween(l, AInt(1), AInt(3)) : l \in L }
 SmallStr == { ABin("^=", AKey, AStr(a)), ABin(">", AStr(ab), AKey), ABin("=", Call1("lower", AVal), AStr(ab)), ABin("~=", AVal, AStr(<<94, 97>>)),
